@@ -3847,7 +3847,8 @@ class CaseNode(Node):
                 if true_backref is not None:
                     # Handle empty matches
                     all_transitions_empty = set().union(*(decider_dfa.transitions_pointing_to(x) for x in corresponding_finish_states[i]))
-                    if len(all_transitions_empty) != 1 and any(x.is_timing_strict() for x in self.case_match_actions[true_backref]):
+                    can_continue = any(not x.error_handling for finish in corresponding_finish_states[i] for x in finish.transitions)
+                    if (len(all_transitions_empty) != 1 or can_continue) and any(x.is_timing_strict() for x in self.case_match_actions[true_backref]):
                         raise UnableToScheduleActionError([i], [x for x in self.case_match_actions[true_backref] if x.is_timing_strict()])
                     # Add actions
                     for j in all_transitions_empty:
